@@ -13,6 +13,7 @@ import hashlib
 import random
 
 from dsim.kernel import Violations
+from models.usb2_wire import gen_idle_data
 from models import usb2
 from models.usb2 import UTMIHost, token_packet, data_packet, sof_packet, apply_fault, parse_token, parse_data
 from engines.usb2_device import device_bench, IDLE_INIT
@@ -131,6 +132,7 @@ def gen(rng, tier, index):
                     op["fault"]["tok_addr"] = rng.choice([0, rng.randint(1, 127)])
                     op["fault"]["tok_ep"] = rng.choice([2, EP, rng.randint(0, 15)])
         ops.append(op)
+    cfg["idle_data"] = gen_idle_data(rng)
     return {"engine": ENGINE, "config": cfg, "ops": ops}
 
 
@@ -265,7 +267,7 @@ def run(scn):
         while h.t - cons.last_activity < 8:
             yield
 
-    host = UTMIHost(script, byte_period=cfg["byte_period"], pre=cfg["pre"], post=cfg["post"], gap_pattern=cfg["gaps"])
+    host = UTMIHost(script, idle_data=cfg.get("idle_data"), byte_period=cfg["byte_period"], pre=cfg["pre"], post=cfg["post"], gap_pattern=cfg["gaps"])
     per_pkt = (mps + 8) * (cfg["byte_period"] + 3) + 2 * timeout
     max_cycles = 600 + 4 * buf + sum(per_pkt + op.get("gap", 0) + op.get("n", 0) + op.get("tok_gap", 0) for op in ops)
     log = bench.run([host, cons], max_cycles, init=init)
